@@ -136,6 +136,13 @@ CHECKS = {
    note='PARTIAL: the m-token Jensen inequality for the clamped entropy is stated (C17_entropy_chain_full_statement, not asserted) and only its two-token unclamped case is proved. Known finding: SimVQ / ResidualSimVQ report a non-zero loss in eval().',
    technique='Coq proof (reals: Gibbs inequality, concavity) + regenerated guard / pinned loss assembly + independent recomputation with Coq (Q) and interval-certified cases',
    ref='DESIGN.md section 4 C17'),
+ 'C18': dict(
+   text='Theorems (Coq, reals): every divisor is bounded away from zero (safe_div and l2norm divisors >= eps, Laplace-smoothed counts > 0 also for never-hit codes, k-means divides by 1 for empty clusters), quotients are bounded by |num|/eps, l2norm of the zero vector is the zero vector, '
+        'the cdist sqrt argument is clamped non-negative, log arguments are >= eps, the FSQ atanh argument is strictly inside (-1,1) and the bound stays below half_l + 1, tanh stays in (-1,1); EMA is a convex combination for decay in [0,1], so the statistics stay within the bounds of what they have seen along any history (induction). '
+        'Tie: the kernels and every clamp / eps default regenerated and pinned; direct oracle on 12 adversarial input families x 28 module configurations x multi-step train/eval histories: isfinite over outputs, losses, input gradients and state_dict.',
+   note='PARTIAL as named: theorems are over the reals; "finite in float32" additionally assumes that a float32 operation on finite operands whose exact result is far below 2^127 is finite (not proved end-to-end with Flocq for the tensor code).',
+   technique='Coq proof (reals: divisor / argument-range lemmas, convexity, induction over histories) + regenerated kernels / pinned clamps + adversarial-family oracle',
+   ref='DESIGN.md section 4 C18'),
  'C12': dict(
    text='Theorems (Coq, axiom-free, all n, cutoff, multiple_of, draws r): the layers that run are exactly the prefix {0..k-1} with k = min(n, round_up(r+1, m)); cutoff < k <= n; m | k or k = n; '
         'dropped layers form a suffix; every admissible k is produced by some in-contract draw; dropout is off when not training / indices supplied / dropout disabled / one layer. '
